@@ -58,54 +58,57 @@ func NewZSetMember(score float64, data string) *ZSetMember {
 func (zset *ZSet) Add(nms []*ZSetMember, opt ZAddOption) int {
 	addedMemberCount := 0
 	for _, nm := range nms {
-		isAdded := false
+		// A member has exactly one entry: adding it again moves it to its new score.
+		isNewMember := true
 		for n, tm := range zset.members {
-			if nm.Score < tm.Score {
-				zset.members = append(zset.members[:n+1], zset.members[n:]...)
-				zset.members[n] = nm
-				isAdded = true
-				addedMemberCount++
+			if tm.Member == nm.Member {
+				zset.members = append(zset.members[:n], zset.members[n+1:]...)
+				isNewMember = false
 				break
 			}
 		}
-		if !isAdded {
-			zset.members = append(zset.members, nm)
+		if isNewMember {
 			addedMemberCount++
 		}
+		// Members are ordered by score, members with equal scores by their names.
+		pos := len(zset.members)
+		for n, tm := range zset.members {
+			if nm.Score < tm.Score || (nm.Score == tm.Score && nm.Member < tm.Member) {
+				pos = n
+				break
+			}
+		}
+		zset.members = append(zset.members, nil)
+		copy(zset.members[pos+1:], zset.members[pos:])
+		zset.members[pos] = &ZSetMember{Score: nm.Score, Member: nm.Member}
 	}
 	return addedMemberCount
 }
 
+// limitZSetMembers applies a LIMIT offset and count: a negative count means all remaining members.
+func limitZSetMembers(mems []*ZSetMember, offset int, count int) []*ZSetMember {
+	if offset < 0 || len(mems) <= offset {
+		return []*ZSetMember{}
+	}
+	mems = mems[offset:]
+	if 0 <= count && count < len(mems) {
+		mems = mems[:count]
+	}
+	return mems
+}
+
 func (zset *ZSet) Range(start int, stop int, opt ZRangeOption) []*ZSetMember {
-	if start < 0 {
-		start = len(zset.members) + start
-	}
-	if stop < 0 {
-		stop = len(zset.members) + stop
-	}
-
 	mems := []*ZSetMember{}
-	for n := start; n <= stop; n++ {
-		if (n < 0) || ((len(zset.members) - 1) < n) {
-			continue
-		}
-		mems = append(mems, zset.members[n])
+	if start, stop, ok := clampRange(len(zset.members), start, stop); ok {
+		mems = append(mems, zset.members[start:stop+1]...)
 	}
 
-	offset := opt.Offset
-	if offset < 0 {
-		offset = 0
-	}
-	count := opt.Count
-	if count < 0 {
-		count = len(mems)
-	}
-
+	mems = limitZSetMembers(mems, opt.Offset, opt.Count)
 	if !opt.REV {
-		return mems[offset:count]
+		return mems
 	}
 
-	return reverseZSetMembers(mems[offset:count])
+	return reverseZSetMembers(mems)
 }
 
 func (zset *ZSet) RangeByScore(min float64, max float64, opt ZRangeOption) []*ZSetMember {
@@ -120,20 +123,12 @@ func (zset *ZSet) RangeByScore(min float64, max float64, opt ZRangeOption) []*ZS
 		mems = append(mems, mem)
 	}
 
-	offset := opt.Offset
-	if offset < 0 {
-		offset = 0
-	}
-	count := opt.Count
-	if count < 0 {
-		count = len(mems)
-	}
-
+	mems = limitZSetMembers(mems, opt.Offset, opt.Count)
 	if !opt.REV {
-		return mems[offset:count]
+		return mems
 	}
 
-	return reverseZSetMembers(mems[offset:count])
+	return reverseZSetMembers(mems)
 }
 
 func (zset *ZSet) Rem(members []string) int {
@@ -208,9 +203,12 @@ func (server *Server) ZRange(conn *redis.Conn, key string, start int, stop int, 
 	if err != nil {
 		return nil, err
 	}
-	_, zset, err := db.GetZSetRecord(key)
+	zset, ok, err := db.LookupZSetRecord(key)
 	if err != nil {
 		return nil, err
+	}
+	if !ok {
+		return redis.NewArrayMessage(), nil
 	}
 	mems := zset.Range(start, stop, opt)
 	arrayMsg := redis.NewArrayMessage()
@@ -229,9 +227,12 @@ func (server *Server) ZRangeByScore(conn *redis.Conn, key string, start float64,
 	if err != nil {
 		return nil, err
 	}
-	_, zset, err := db.GetZSetRecord(key)
+	zset, ok, err := db.LookupZSetRecord(key)
 	if err != nil {
 		return nil, err
+	}
+	if !ok {
+		return redis.NewArrayMessage(), nil
 	}
 	mems := zset.RangeByScore(start, stop, opt)
 	arrayMsg := redis.NewArrayMessage()
@@ -250,11 +251,18 @@ func (server *Server) ZRem(conn *redis.Conn, key string, members []string) (*red
 	if err != nil {
 		return nil, err
 	}
-	_, zset, err := db.GetZSetRecord(key)
+	zset, ok, err := db.LookupZSetRecord(key)
 	if err != nil {
 		return nil, err
 	}
-	return redis.NewIntegerMessage(zset.Rem(members)), nil
+	if !ok {
+		return redis.NewIntegerMessage(0), nil
+	}
+	removed := zset.Rem(members)
+	if len(zset.members) == 0 {
+		db.RemoveRecord(key)
+	}
+	return redis.NewIntegerMessage(removed), nil
 }
 
 func (server *Server) ZScore(conn *redis.Conn, key string, member string) (*redis.Message, error) {
@@ -262,8 +270,8 @@ func (server *Server) ZScore(conn *redis.Conn, key string, member string) (*redi
 	if err != nil {
 		return nil, err
 	}
-	_, zset, err := db.GetZSetRecord(key)
-	if err != nil {
+	zset, ok, err := db.LookupZSetRecord(key)
+	if err != nil || !ok {
 		return redis.NewNilMessage(), nil
 	}
 	score, ok := zset.Score(member)
